@@ -463,6 +463,60 @@ func genC04(seed uint64) *Plan {
 			pl.Steps = append(pl.Steps, Step{Kind: "lr_op", Label: "refresh", Peer: r.Intn(nclients)})
 		}
 	}
+	if r.Chance(0.4) {
+		// "registered before, during or after route changes": independent operations (different
+		// paths, different clients) are released together and interleaved at every lock boundary
+		pl.Sim.GateProb = pick(r, []float64{0.5, 1})
+		pl.Sim.Sticky = pick(r, []float64{0, 0.5})
+		pl.Sim.Priority = r.Chance(0.4)
+		pl.Sim.RandomHandoff = r.Chance(0.5)
+		var out []Step
+		for i := 0; i < len(pl.Steps); {
+			if !r.Chance(0.6) {
+				out = append(out, pl.Steps[i])
+				i++
+				continue
+			}
+			var grp []Step
+			paths, clients := map[string]bool{}, map[int]bool{}
+			for ; i < len(pl.Steps) && len(grp) < 3; i++ {
+				st := pl.Steps[i]
+				ok := true
+				switch st.Label {
+				case "add", "remove", "replace":
+					ks := []string{fmt.Sprintf("%s/%d", st.Pfx[0], st.N)}
+					if st.Label == "replace" {
+						ks = append(ks, fmt.Sprintf("%s/%d", st.Pfx[0], st.Code))
+					}
+					for _, k := range ks {
+						if paths[k] {
+							ok = false
+						}
+					}
+					if ok {
+						for _, k := range ks {
+							paths[k] = true
+						}
+					}
+				default:
+					if clients[st.Peer] {
+						ok = false
+					}
+					clients[st.Peer] = true
+				}
+				if !ok {
+					break
+				}
+				grp = append(grp, st)
+			}
+			if len(grp) > 1 {
+				out = append(out, Step{Kind: "par", Par: grp})
+			} else {
+				out = append(out, grp...)
+			}
+		}
+		pl.Steps = out
+	}
 	return pl
 }
 
@@ -622,7 +676,11 @@ func orderOf(ps []*route.Path) []int {
 	return out
 }
 
-func (o *c04Oracle) AfterStep(w *World, i int, s *Step) {}
+func (o *c04Oracle) AfterStep(w *World, i int, s *Step) {
+	if s.Kind == "par" && len(w.PendingTasks()) == 0 {
+		o.check(w, fmt.Sprintf("after concurrent step %d", i))
+	}
+}
 func (o *c04Oracle) Final(w *World) {
 	adds, removes, regs := 0, 0, 0
 	for _, c := range o.clients {
